@@ -158,6 +158,20 @@ pub fn execute(ctx: &mut Ctx, lines: &[String]) -> Vec<String> {
                 }
                 hex(&data)
             }
+            // C20: the in-memory log target frames every record as format output + one line ending
+            ["BUFFRAME", max, msgs @ ..] => {
+                ctx.report.count("op.BUFFRAME");
+                ctx.report.nontrivial_case(lines);
+                let exe = std::env::current_exe().unwrap();
+                let o = std::process::Command::new(exe).arg("child").arg("bufframe").arg(max).args(msgs).output().expect("child");
+                let got = String::from_utf8_lossy(&o.stdout).trim().to_string();
+                let want: Vec<u8> = msgs.iter().flat_map(|h| { let mut b = unhex(h).unwrap(); b.push(b'\n'); b }).collect();
+                let got = if got.is_empty() { "-".to_string() } else { got };
+                if unhex(&got).unwrap_or_default() != want {
+                    ctx.report.fail(&case_id, "buffer-framing", &format!("line {li}: the snapshot of the in-memory log target is {:?}, the records framed with one line ending each are {:?}", String::from_utf8_lossy(&unhex(&got).unwrap_or_default()), String::from_utf8_lossy(&want)));
+                }
+                got
+            }
             ["BUFLOG", max, lens] => {
                 ctx.report.count("op.BUFLOG");
                 ctx.report.nontrivial_case(lines);
